@@ -540,7 +540,10 @@ Definition run (tag : Z) (args : list Z) : list Z :=
   | 70, l => run_parse l
   | 73, l => run_parse l
   | 74, l => run_parse l
+  | 76, l => run_parse l
   | 71, _ => [1]
+  | 72, l => run_ctor l
+  | 75, _ => [1]
   | _, _ => BAD
   end.
 
@@ -576,7 +579,10 @@ Definition spec (tag : Z) (args : list Z) : list Z :=
   | 70, l => spec_parse l
   | 73, l => spec_fixpoint l
   | 74, l => spec_options l
+  | 76, l => spec_wellformed l
   | 71, _ => [-11]
+  | 72, l => spec_ctor l
+  | 75, _ => [1]
   | _, _ => BAD
   end.
 
